@@ -28,6 +28,7 @@ DEFAULT_BUDGET = {
     "unpause": 0,  # operator resume (Orchestrator.unpause), only after the pause
     "oprestart": 0,  # operator restart of a completed stage (Orchestrator.restart)
     "fault": 0,  # one transient database error raised by the connection before statement i of a delivery
+    "cancelregion": 0,  # operator pushes CancelRegion for the region named 'r'
 }
 
 
@@ -209,6 +210,8 @@ class Explorer:
             acts.append(("retention", None))
         if b["cancel"] > 0 and nonq:
             acts.append(("cancel", None))
+        if b.get("cancelregion", 0) > 0 and nonq:
+            acts.append(("cancelregion", None))
         if b["signal"] > 0:
             idx = len(self.signal_spec) - b["signal"]
             spec = self.signal_spec[idx]
@@ -302,6 +305,11 @@ class Explorer:
             b["retention"] -= 1
             w.store.cleanup_completed_stage_claims()
             w.store.cleanup_old_processed_messages(max_age_hours=0.0)
+        elif kind == "cancelregion":
+            b["cancelregion"] -= 1
+            from stabilize.queue.messages import CancelRegion
+
+            w.queue.push(CancelRegion(execution_type="PIPELINE", execution_id=st.view.exec_id, region="r"))
         elif kind == "cancel":
             b["cancel"] -= 1
             wf = w.store.retrieve(st.view.exec_id)
